@@ -1111,8 +1111,10 @@ def thr_run(target, ctor, sched, pauses):
                     seen, still = tick[t], now
                 elif now - still >= (THR_STILL if asleep else THR_STILL_BLIND) and any(state[u] == "paused" for u in calls if u != t):
                     return "blocked"
-                if now - t0 > THR_HANG:
-                    return "hang"
+                if now - t0 > THR_HANG and now - still >= 5.0 and asleep is not False:
+                    return "hang"                          # asleep and silent: blocked for good, not starved by a busy machine
+                if now - t0 > 900:
+                    raise MachineryError("thread %d is still running after 900 s (schedule %s)" % (t, sched))
 
     def finish_event(t):
         if t in finished:
@@ -1260,10 +1262,18 @@ def obs_stress(args):
             if n != ndone:
                 ndone, since = n, time.monotonic()
             elif time.monotonic() - since > 45:                # no call has returned for this long (a call takes milliseconds)
-                break
+                looks = []
+                for _ in range(5):                             # blocked for good (asleep), or starved by a busy machine?
+                    looks.append(all(_os_asleep(th) is not False for th in ths if th.is_alive()))
+                    time.sleep(0.1)
+                if all(looks):
+                    break
+                since = time.monotonic()
         hung = [t for t, th in enumerate(ths) if th.is_alive()]
         if hung:
             bar.abort()
+            if time.monotonic() >= deadline:
+                raise MachineryError("free-running threads still running after 1200 s (%s %s)" % (target, kind))
     finally:
         sys.setswitchinterval(old)
     recs = []
